@@ -109,6 +109,42 @@ def run(prop, tier, seed, repo, jobs):
             inconclusive.append('native validation of the skip decision diverged: %s' % pattern)
     except Exception as e:   # pragma: no cover
         inconclusive.append('native validation failed: %s' % e)
+    native_probes = []
+    if prop == 'C05':
+        # native probe (not a solver obligation): the allocation behaviour of the real bincode on a corrupted length
+        # prefix is outside the file-system model; a record claiming a 2^63-1 / 2^40 byte key must be discarded
+        try:
+            import shutil, tempfile
+            from ..native import build_native, run_native
+            binpath, _ = build_native(repo)
+            for label, prefix in (('len=2^63-1', bytes([1, 0, 0, 0, 0, 0, 0, 0]) + bytes([0xff] * 7 + [0x7f]) + b'abc'),
+                                  ('len=2^40', bytes([1, 0, 0, 0, 0, 0, 0, 0]) + bytes([0, 0, 0, 0, 0, 1, 0, 0]) + b'abc'),
+                                  ('truncated', None)):
+                d = tempfile.mkdtemp(prefix='zx-f7-', dir=os.environ.get('VERIF_SCRATCH', '/var/tmp'))
+                try:
+                    open(d + '/zinoma.yml', 'w').write('targets:\n  t:\n    input:\n      - paths: [in.txt]\n    build: echo t\n')
+                    open(d + '/in.txt', 'w').write('a')
+                    r1 = run_native(binpath, d, ['t'], None, timeout=30)
+                    sf = d + '/.zinoma/t.checksums'
+                    if prefix is None:
+                        data = open(sf, 'rb').read()
+                        open(sf, 'wb').write(data[:len(data) // 2])
+                    else:
+                        open(sf, 'wb').write(prefix)
+                    r2 = run_native(binpath, d, ['t'], None, timeout=20)
+                    rebuilt = any(l.startswith('proc_spawn') for l in r2['log'])
+                    okp = r2['rc'] == 0 and rebuilt
+                    native_probes.append({'corruption': label, 'rc': r2['rc'], 'rebuilt': rebuilt, 'ok': okp})
+                    if not okp:
+                        rpath = os.path.join(common.REPLAYS, 'C05-corrupt-record-%s.json' % label.replace('=', '').replace('^', ''))
+                        os.makedirs(common.REPLAYS, exist_ok=True)
+                        json.dump({'kind': 'script', 'what': 'corrupted record %s is not discarded: rc=%s rebuilt=%s' % (label, r2['rc'], rebuilt), 'stderr': r2['stderr'][-300:],
+                                   'cmd': 'echo "write the bytes of a record with a huge length prefix into .zinoma/<target>.checksums and run zinoma"'}, open(rpath, 'w'), indent=1)
+                        violations.append(rpath)
+                finally:
+                    shutil.rmtree(d, ignore_errors=True)
+        except Exception as e:   # pragma: no cover
+            inconclusive.append('native probe of corrupted records failed: %s' % e)
     wall = time.time() - t0
     coverage = {
         'explanation': 'symbolic execution of the real incremental::run (and everything below it) over a symbolic file system: every feasible path of two (C05: three) invocations is enumerated by the executor with z3 deciding feasibility, and each obligation is a z3 query per path against a reference semantics',
@@ -117,7 +153,7 @@ def run(prop, tier, seed, repo, jobs):
         'rule': 'one evaluation = one feasible symbolic path (a set of file-system states/edit histories), distinct by its path condition',
         'samples': samples or [{'note': 'none'}], 'functions_encoded': sorted(fns),
         'bounds': [{'scenario': s.name, 'paths_universe': s.paths, 'chunks_per_file': s.nchunks} for s in scs],
-        'traces_validated_against_impl': validated,
+        'traces_validated_against_impl': validated, 'native_probes': native_probes,
         'outside_claim': ['hash collisions', 'files outside the path universe / more files than the universe', 'mtime granularity of real file systems', 'bincode internals (prefix-undecodability assumed)'],
         'exhaustive': False,
     }
